@@ -65,6 +65,7 @@ RetV(id, e)    == [k |-> "retv", id |-> id, e |-> e]        \* return <expr>;
 Call(id, s)    == [k |-> "call", id |-> id, s |-> s]
 Err(id, code)  == [k |-> "error", id |-> id, code |-> code]
 Restart(id)    == [k |-> "restart", id |-> id]
+RetBare(id)    == [k |-> "retbare", id |-> id]              \* return;  - leaves the subroutine, names no state
 Mark(kind, id) == [k |-> "mark", kind |-> kind, id |-> id]  \* coverage.<kind>("<id>");
 
 Sub(ty, body)  == [ty |-> ty, body |-> body]                \* ty: "scoped" | "BOOL" | "STRING"
@@ -101,6 +102,21 @@ Main1 ==
         If("r16", Eq("Z", "restart"), << Restart("r17") >>, << >>, FALSE, << >>),
         If("r18", Eq("Z", "pass"), << Ret("r19", "PASS") >>, << >>, FALSE, << >>),
         Ret("r20", "LOOKUP") >>),
+    \* ways of leaving a subroutine without naming a state, and a runtime error at every position of a body
+    bare  |-> Sub("scoped", << Set("q1", "Bare", Lit("1")),
+                               If("q2", Eq("Z", "late"), << >>, << >>, TRUE, << RetBare("q3") >>),
+                               Set("q4", "Bare", Lit("2")) >>),
+    boom  |-> Sub("scoped", <<
+        If("o1", Eq("B", "then"), << Set("o2", "Q", IfE("o2e", InAcl("Nope"), Lit("a"), Lit("b"))) >>,
+           << Elif(Eq("B", "elif"), << Set("o3", "Q", IfE("o3e", InAcl("Nope"), Lit("a"), Lit("b"))) >>) >>,
+           TRUE, << If("o4", Eq("B", "nested"), << If("o5", IsSet("B"), << Set("o6", "Q", IfE("o6e", InAcl("Nope"), Lit("a"), Lit("b"))) >>,
+                                                      << >>, FALSE, << >>) >>, << >>, FALSE, << >>),
+                    If("o7", Eq("B", "else"), << >>, << >>, FALSE, << >>) >>),
+        Switch("o8", "B", << Case("case", << Set("o9", "Q", IfE("o9e", InAcl("Nope"), Lit("a"), Lit("b"))) >>, FALSE),
+                             Case("<default>", << >>, FALSE) >>),
+        If("o10", Eq("B", "helper"), << Call("o11", "boomhelper") >>, << >>, FALSE, << >>),
+        Set("o12", "Bdone", Lit("1")) >>),
+    boomhelper |-> Sub("scoped", << If("u1", IsSet("B"), << Set("u2", "Q", IfE("u2e", InAcl("Nope"), Lit("a"), Lit("b"))) >>, << >>, FALSE, << >>) >>),
     vcl_deliver |-> Sub("scoped", <<
         Set("d1", "E", IfE("d1e", FnC("bump"), Lit("t"), Lit("f"))),
         Log("d2", Lit("deliver")),
@@ -152,6 +168,20 @@ Main2 ==
            << Elif(Eq("Z", "restart"), << Restart("r17") >>),
               Elif(Eq("Z", "pass"), << Ret("r19", "PASS") >>) >>, FALSE, << >>),
         Ret("r20", "LOOKUP") >>),
+    bare  |-> Sub("scoped", << If("q2", Eq("Z", "late"), << Set("q1", "Bare", Lit("1")) >>, << >>, TRUE,
+                                  << Set("q5", "Bare", Lit("1")), Switch("q6", "Z", << Case("<default>", << RetBare("q3") >>, FALSE) >>) >>),
+                               Set("q4", "Bare", Lit("2")) >>),
+    boom  |-> Sub("scoped", <<
+        Switch("o8", "B", <<
+           Case("then", << If("o1", IsSet("B"), << Log("o2", IfE("o2e", InAcl("Nope"), Lit("a"), Lit("b"))) >>, << >>, FALSE, << >>) >>, FALSE),
+           Case("elif", << If("o13", Eq("B", "x"), << >>, << Elif(IsSet("B"), << Set("o3", "Q", Cat(Lit("q"), IfE("o3e", InAcl("Nope"), Lit("a"), Lit("b")))) >>) >>, FALSE, << >>) >>, FALSE),
+           Case("nested", << If("o4", IsSet("B"), << If("o5", Eq("B", "x"), << >>, << >>, TRUE,
+                                  << Set("o6", "Q", IfE("o6e", InAcl("Nope"), Lit("a"), Lit("b"))) >>) >>, << >>, FALSE, << >>) >>, FALSE),
+           Case("case", << Set("o9", "Q", IfE("o9e", InAcl("Nope"), Lit("a"), Lit("b"))) >>, TRUE),
+           Case("helper", << Call("o11", "boomhelper") >>, FALSE),
+           Case("<default>", << >>, FALSE) >>),
+        Set("o12", "Bdone", Lit("1")) >>),
+    boomhelper |-> Sub("scoped", << Switch("u1", "B", << Case("helper", << Set("u2", "Q", IfE("u2e", InAcl("Nope"), Lit("a"), Lit("b"))) >>, FALSE) >>) >>),
     vcl_deliver |-> Sub("scoped", <<
         Log("d2", Cat(Lit("deliver "), IfE("d1e", FnC("bump"), Lit("t"), Lit("f")))),
         Ret("d3", "DELIVER") >>)
@@ -252,8 +282,8 @@ KindCount(M, m, kind) == Cardinality(M \cap MarkerSets[m].byKind[kind])
 (* The interpreter, as far as the pool exercises it.  env is the state of  *)
 (* one Interpreter + its context.Context.                                  *)
 (***************************************************************************)
-Hdrs     == {"A", "S", "Z", "R", "T", "E", "V", "N", "H", "L", "C", "Zone", "Zs", "Zalt"}
-SubNames == {"bump", "pick", "helper", "zone", "vcl_recv", "vcl_deliver", "mock_helper", "mock_pick"}
+Hdrs     == {"A", "S", "Z", "R", "T", "E", "V", "N", "H", "L", "C", "Zone", "Zs", "Zalt", "B", "Q", "Bdone", "Bare", "Nope"}
+SubNames == {"bump", "pick", "helper", "zone", "bare", "boom", "boomhelper", "vcl_recv", "vcl_deliver", "mock_helper", "mock_pick"}
 \* acl internal { "192.0.2.0"/24; } - the addresses the pool uses
 AclAnswer(v) == IF v = "192.0.2.5" THEN "in" ELSE IF v = "10.0.0.1" THEN "out" ELSE "error"
 
@@ -328,10 +358,12 @@ ExecSeq(P, ss, i, env) ==
       [] s.k = "ret"  -> R(env, "return", s.st)
       [] s.k = "retv" -> LET r == EvalE(P, s.e, env) IN
                          IF ~r.ok THEN R(r.env, "rterr", "") ELSE R(r.env, "return", r.v)
+      \* ProcessCallStatement: a callee left through a bare return (BARE_RETURN -> NONE) lets the caller go on
       [] s.k = "call" -> LET r == RunSub(P, s.s, env) IN
-                         IF r.ctl = "next" THEN ExecSeq(P, ss, i + 1, r.env) ELSE r
+                         IF r.ctl = "next" \/ (r.ctl = "return" /\ r.val = "BARE") THEN ExecSeq(P, ss, i + 1, r.env) ELSE r
       [] s.k = "error"   -> R([env EXCEPT !.objstatus = s.code], "error", "")
       [] s.k = "restart" -> R(env, "restart", "")
+      [] s.k = "retbare" -> R(env, "return", "BARE")
 
 \* the if made by instrumentIfExpression is recognisable: both arms hold exactly one branch marker
 IsPreEval(s) == s.th # << >> /\ s.th[1].k = "mark" /\ Len(s.th) = 1 /\ s.elifs = << >> /\ s.hasElse
@@ -438,6 +470,30 @@ CoreTests ==
                                        <<"a_not_called", "mock_helper">> >>),
     inject_twice |-> T(RECV, FALSE, << <<"inject", "JP">>, <<"inject", "US">>, <<"a_var_eq", "US">> >>),
     host_twice   |-> T(RECV, FALSE, << <<"host", "a.example.org">>, <<"host", "b.example.org">>, <<"a_host_eq", "b.example.org">> >>),
+    \* the state the assertions see is the one of the LAST testing.call_subroutine
+    seq_lookup_bare  |-> T(RECV, FALSE, << <<"call", "vcl_recv">>, <<"a_state", "LOOKUP">>, <<"call", "bare">>, <<"a_not_state", "LOOKUP">>,
+                                           <<"a_hdr_eq", "Bare", "1">>, <<"a_not_error">>, <<"a_not_restart">> >>),
+    seq_err_bare     |-> T(RECV, FALSE, << <<"sethdr", "Z", "err">>, <<"call", "vcl_recv">>, <<"a_error", 601>>, <<"call", "bare">>,
+                                           <<"a_not_error">>, <<"a_not_state", "ERROR">> >>),
+    seq_restart_bare |-> T(RECV, FALSE, << <<"sethdr", "Z", "restart">>, <<"call", "vcl_recv">>, <<"a_restart">>, <<"call", "bare">>,
+                                           <<"a_not_restart">> >>),
+    seq_lookup_fall  |-> T(RECV, FALSE, << <<"call", "vcl_recv">>, <<"call", "helper">>, <<"a_not_state", "LOOKUP">>,
+                                           <<"sethdr", "Z", "late">>, <<"call", "bare">>, <<"a_hdr_eq", "Bare", "2">>, <<"a_not_state", "LOOKUP">> >>),
+    seq_three        |-> T(RECV, FALSE, << <<"sethdr", "Z", "pass">>, <<"call", "vcl_recv">>, <<"a_state", "PASS">>, <<"call", "bare">>,
+                                           <<"a_not_state", "PASS">>, <<"sethdr", "Z", "err">>, <<"call", "vcl_recv">>, <<"a_error", 601>>,
+                                           <<"a_not_state", "PASS">> >>),
+    seq_bare_wrong   |-> T(RECV, FALSE, << <<"call", "vcl_recv">>, <<"call", "bare">>, <<"a_state", "LOOKUP">> >>),
+    seq_two_scopes   |-> T(<< "RECV", "DELIVER" >>, FALSE, << <<"call", "bare">>, <<"a_not_state", "LOOKUP">>, <<"a_not_error">>,
+                                           <<"call", "vcl_recv">>, <<"a_state", "LOOKUP">> >>),
+    seq_two_restart  |-> T(<< "RECV", "DELIVER" >>, FALSE, << <<"call", "helper">>, <<"a_not_error">>, <<"a_not_restart">>,
+                                           <<"sethdr", "Z", "restart">>, <<"call", "vcl_recv">> >>),
+    \* a runtime error at every position of a main-VCL subroutine reached through testing.call_subroutine
+    boom_then    |-> T(RECV, FALSE, << <<"sethdr", "B", "then">>, <<"call", "boom">>, <<"log", "unreachable">> >>),
+    boom_elif    |-> T(RECV, FALSE, << <<"sethdr", "B", "elif">>, <<"call", "boom">>, <<"log", "unreachable">> >>),
+    boom_nested  |-> T(RECV, FALSE, << <<"sethdr", "B", "nested">>, <<"call", "boom">>, <<"log", "unreachable">> >>),
+    boom_case    |-> T(RECV, FALSE, << <<"sethdr", "B", "case">>, <<"call", "boom">>, <<"log", "unreachable">> >>),
+    boom_helper  |-> T(RECV, FALSE, << <<"sethdr", "B", "helper">>, <<"call", "boom">>, <<"log", "unreachable">> >>),
+    boom_none    |-> T(RECV, FALSE, << <<"sethdr", "B", "else">>, <<"call", "boom">>, <<"a_hdr_eq", "Bdone", "1">>, <<"a_hdr_notset", "Q">> >>),
     empty        |-> T(RECV, FALSE, << >>)
   ]
 
@@ -452,17 +508,42 @@ HelperTests == [ mock_helper |-> T(RECV, FALSE, << <<"ast", "mock_helper">> >>),
                  mock_pick   |-> T(RECV, FALSE, << <<"ast", "mock_pick">> >>) ]
 Prefix == << "mock_helper", "mock_pick" >>
 
-Tests == Merge(Merge(CoreTests, FamTests), HelperTests)
-AllTests  == (DOMAIN CoreTests) \cup (DOMAIN FamTests)
+\* every failing construct at every position of the test subroutine's body: the verdict is "failed" wherever it stands
+Positions == {"then", "elif", "else", "nested", "case"}
+FailOps ==
+  [ rterr   |-> <<"rterr">>,
+    badcall |-> <<"call", "no_such_sub">>,
+    state   |-> <<"a_state", "LOOKUP">>,
+    hdr     |-> <<"a_hdr_eq", "R", "zzz">>,
+    called  |-> <<"a_called", "helper", 1>> ]
+PosFailOp(c) == IF c \in DOMAIN FailOps THEN FailOps[c] ELSE <<"const", c, FALSE>>
+PosConstructs == (DOMAIN FailOps) \cup Families
+PosName(c, p) == "pos_" \o c \o "_" \o p
+PosTests ==
+  [n \in {PosName(c, p) : c \in PosConstructs, p \in Positions} \cup {PosName("hold", p) : p \in Positions} |->
+     IF \E p \in Positions : n = PosName("hold", p)
+     THEN LET p == CHOOSE p \in Positions : n = PosName("hold", p) IN
+          T(RECV, FALSE, << <<"at", p, <<"const", "equal", TRUE>> >>, <<"at", p, <<"log", "inside">> >>, <<"log", "after">> >>)
+     ELSE LET cp == CHOOSE cp \in PosConstructs \X Positions : n = PosName(cp[1], cp[2]) IN
+          T(RECV, FALSE, << <<"log", "before">>, <<"at", cp[2], PosFailOp(cp[1])>>, <<"log", "unreachable">> >>)]
+
+Tests == Merge(Merge(Merge(CoreTests, FamTests), PosTests), HelperTests)
+AllTests  == (DOMAIN CoreTests) \cup (DOMAIN FamTests) \cup (DOMAIN PosTests)
+FamNames  == DOMAIN FamTests
+PosNames  == DOMAIN PosTests
 CoreNames == DOMAIN CoreTests
 BothCov   == BOOLEAN
+NoCov     == {FALSE}
 MainOne   == {1}
 MainBoth  == {1, 2}
-IsFam(n) == n \in DOMAIN FamTests
+IsFam(n) == n \in (DOMAIN FamTests) \cup (DOMAIN PosTests)
 
 \* result of a body: [env, verdict "pass"|"fail", kind ""|"assert"|"error", np (assertions passed), nf (assertions failed)]
 RECURSIVE RunOps(_, _, _, _, _, _)
-RunOps(P, ops, i, env, scope, np) ==
+RunOps(P, ops0, i, env, scope, np) ==
+  \* <<"at", position, op>>: the operation sits inside an if-consequence / else-if / else / two ifs / a switch case
+  \* of the test subroutine.  Where a statement stands does not change what it does.
+  LET ops == [j \in 1..Len(ops0) |-> IF ops0[j][1] = "at" THEN ops0[j][3] ELSE ops0[j]] IN
   IF i > Len(ops) THEN [env |-> env, verdict |-> "pass", kind |-> "", np |-> np, nf |-> 0]
   ELSE
     LET o == ops[i]
